@@ -108,6 +108,19 @@ TInitCall ==
           ELSE Explain(after \in InitFailPosts(s), <<l, "Init", "obs", InitFailPosts(s)>>)
        /\ objs' = [objs EXCEPT ![ev.o + 1] = after]
 
+(* vnadata_alloc_and_init: a new object, or NULL with the failure protocol *)
+TAllocInit ==
+    LET ev == TraceLog[l]
+        r  == DoInit(Empty, ev.t, ev.r, ev.c, ev.n, FALSE, AuxDefault)
+    IN /\ ev.e = "AllocInit"
+       /\ Explain((ev.ok = 1) = r.ok /\ ev.ok \in {0, 1} /\ ev.got = ev.ok,
+                  <<l, "AllocInit", "ok", r.ok>>)
+       /\ Explain(r.ok => NoErrorReport(ev), <<l, "AllocInit", "cb", "none">>)
+       /\ Explain(~r.ok => RefusedAsDocumented(ev),
+                  <<l, "AllocInit", "refusal", "NULL, EINVAL, one USAGE callback">>)
+       /\ Explain(r.ok => ObsIs(ev.obs, r.s), <<l, "AllocInit", "obs", r.s>>)
+       /\ objs' = objs
+
 TConvert ==
     LET ev  == TraceLog[l]
         src == objs[ev.o + 1]
@@ -168,7 +181,7 @@ TEnd ==
 TNext ==
     /\ l <= Len(TraceLog)
     /\ l' = l + 1
-    /\ (TReset \/ TSimple \/ TInitCall \/ TConvert \/ TEnd)
+    /\ (TReset \/ TSimple \/ TInitCall \/ TAllocInit \/ TConvert \/ TEnd)
 
 TraceSpec == TInit /\ [][TNext]_tvars
 =============================================================================
